@@ -169,7 +169,7 @@ impl Property for C10 {
     }
     fn runs(&self, tier: Tier) -> usize {
         match tier {
-            Tier::Quick => 24_000,
+            Tier::Quick => 60_000,
             Tier::Thorough => 600_000,
         }
     }
